@@ -6,7 +6,7 @@
    peers, envelopes, faults, any interleaving of the goroutines. *)
 From Coq Require Import List ZArith Bool.
 Import ListNotations.
-From Goat Require Import Model.Proxy Proofs.ProxyProofs Proofs.ProxyOrder.
+From Goat Require Import Model.Proxy Proofs.ProxyProofs Proofs.ProxyOrder Proofs.ProxyWire.
 Open Scope Z_scope.
 
 (* per destination record i: what was enqueued for i is, in order, what i's connection was handed, then at
@@ -94,6 +94,53 @@ Theorem C16_pair_order : forall cf ls s, lrun cf init ls = Some s -> forall j i,
 Proof. exact C16_pair_order_l. Qed.
 Print Assumptions C16_pair_order.
 
+(* C16_no_loss in the form the property uses: if never more than B <= buffer envelopes are outstanding for
+   destination record i - after every prefix of the history: (accepted and routed to i so far) <= (handed to i's
+   connection so far) + B - then nothing for i is ever dropped and everything accepted for i is, in order and once
+   each, handed to its connection / being written / waiting. (0 < buffer: an unbuffered queue is another program;
+   the rig measures 16 and the check demands >= 12.) *)
+Theorem C16_no_loss_outstanding : forall cf ls s, lrun cf init ls = Some s -> forall i B,
+  (0 < cf_buf cf)%nat -> (B <= cf_buf cf)%nat ->
+  (forall pre post, log s = pre ++ post -> (length (fwds i pre) <= length (outs i pre) + B)%nat) ->
+  dropped i (log s) = [] /\
+  fwds i (log s) = outs i (log s) ++ wfails i (log s) ++ wr_pend s i ++ buf_of s i.
+Proof. exact C16_no_loss_outstanding_l. Qed.
+Print Assumptions C16_no_loss_outstanding.
+
+(* the proxy as a wire: when nothing was ever dropped for destination record i (which the two theorems above
+   guarantee below the buffer), then for EVERY source record j: the enqueued sequence of i (each envelope tagged
+   with the record it came from) is what i's connection was handed ++ at most one failed write ++ the one being
+   written ++ the buffer; its restriction to j is - in order, once each - exactly the sequence of envelopes accepted
+   from j and routed to i, with the route transformation applied; those were received from j in that order
+   (C16_source_order: sent by j's peer in that order); and "route applied" means [forward] (C16_route spells it
+   out: only routing fields change). So between two attached parties the proxy is a reliable ordered wire that
+   only rewrites routing fields *)
+Theorem C16_wire : forall cf ls s, lrun cf init ls = Some s -> forall j i, dropped i (log s) = [] ->
+  map snd (enqs_from i (log s)) = outs i (log s) ++ wfails i (log s) ++ wr_pend s i ++ buf_of s i /\
+  map snd (filter (fun p => Nat.eqb (fst p) j) (enqs_from i (log s))) = map snd (routed j i (log s)) /\
+  Subseq (map fst (routed j i (log s))) (cmds j (log s)) /\
+  (forall e e', In (e, e') (routed j i (log s)) ->
+     exists cj ci, nth_error (clients s) j = Some cj /\ nth_error (clients s) i = Some ci /\
+                   forward cf (p_name cj) e = FRoute (p_name ci) e').
+Proof. exact C16_wire_l. Qed.
+Print Assumptions C16_wire.
+
+(* the return route: [reply_of e' pay] is what a goat server answers to a request that reached it as e' (source and
+   destination exchanged, return route = all but the last hop of the request's route record when it has more than
+   one hop: server.go; the end-to-end rig ties it). The reply is routed to the hop the request came from (popped off
+   the return route) or, for a request from a peer attached here, to the (rewritten) name of the request's source *)
+Theorem C16_return_route : forall cf n e d e' pay d2,
+  forward cf n e = FRoute d e' ->
+  cf_icp cf (e_dst e') (e_src e') = Some d2 ->
+  exists r', forward cf (e_dst e') (reply_of e' pay) =
+               FRoute (match e_rec e with [] => d2 | _ => last (e_rec e) 0%Z end) r' /\
+             e_dst r' = d2 /\ e_src r' = e_dst e' /\ e_pay r' = pay /\ e_rec r' = [cf_name cf] /\
+             e_next r' = match e_rec e with
+                         | [] => None
+                         | _ => Some (removelast (e_rec e)) end.
+Proof. exact C16_return_route_l. Qed.
+Print Assumptions C16_return_route.
+
 (* The unconditional statement - every accepted envelope is eventually handed on, hence "a relayed stream is never
    reported complete with messages missing" - is FALSE of the code as it is: beyond the per-destination buffer the
    non-blocking enqueue drops (finding proxy-overflow>buf, D-16; by design: it is what C17's isolation relies on).
@@ -121,7 +168,8 @@ Example C16_ex : exists s, lrun cf0 init ex16 = Some s /\
   outs 1 (log s) = [mkEnv true 1 2 [99] None 70; mkEnv true 1 2 [99] None 71] /\
   outs 2 (log s) = [mkEnv true 1 3 [99] None 72] /\ dials (log s) = [(2%nat, 3)] /\
   dropped 1 (log s) = [] /\ quiescent cf0 s = true /\
-  pairs 0 1 (log s) = [(m 1 2 70, mkEnv true 1 2 [99] None 70); (m 1 2 71, mkEnv true 1 2 [99] None 71)].
+  pairs 0 1 (log s) = [(m 1 2 70, mkEnv true 1 2 [99] None 70); (m 1 2 71, mkEnv true 1 2 [99] None 71)] /\
+  routed 0 1 (log s) = pairs 0 1 (log s) /\ enqs_from 2 (log s) = [(0%nat, mkEnv true 1 3 [99] None 72)].
 Proof. eexists. split. vm_compute. reflexivity. vm_compute. repeat split; reflexivity. Qed.
 
 (* the known limit (finding proxy-overflow>buf): with the destination's write loop stalled, the envelope that
@@ -133,3 +181,10 @@ Example C16_ex_overflow : exists s,
   wr_pend s 1 = [mkEnv true 1 2 [99] None 70] /\ length (buf_of s 1) = 2%nat /\
   dropped 1 (log s) = [mkEnv true 1 2 [99] None 73].
 Proof. eexists. split. vm_compute. reflexivity. vm_compute. repeat split; reflexivity. Qed.
+
+(* the hypothesis of C16_no_loss_outstanding is met by the run ex16 with B = 2 = the buffer of cf0: after every
+   prefix of its history at most 2 envelopes are outstanding for record 1 *)
+Example C16_ex_outstanding : exists s, lrun cf0 init ex16 = Some s /\
+  forallb (fun k => Nat.leb (length (fwds 1 (firstn k (log s)))) (length (outs 1 (firstn k (log s))) + 2))
+          (seq 0 (S (length (log s)))) = true /\ length (fwds 1 (log s)) = 2%nat.
+Proof. eexists. split. vm_compute. reflexivity. vm_compute. split; reflexivity. Qed.
